@@ -107,7 +107,12 @@ private:
   static inline std::vector<void*> sandbox_list;
 
   RLBOX_SHARED_LOCK(func_ptr_cache_lock);
+  // Addresses used to invoke sandbox functions (impl_lookup_symbol)
   std::map<std::string, void*> func_ptr_map;
+  // Addresses handed out as tainted function pointers
+  // (impl_internal_lookup_symbol). A plugin may represent these differently
+  // from the addresses it is invoked with, so the two are cached separately
+  std::map<std::string, void*> internal_func_ptr_map;
 
   app_pointer_map<typename T_Sbx::T_PointerType> app_ptr_map;
 
@@ -463,6 +468,7 @@ public:
     {
       RLBOX_ACQUIRE_UNIQUE_GUARD(lock, func_ptr_cache_lock);
       func_ptr_map.clear();
+      internal_func_ptr_map.clear();
     }
     return this->impl_destroy_sandbox();
   }
@@ -733,8 +739,8 @@ public:
     {
       RLBOX_ACQUIRE_SHARED_GUARD(lock, func_ptr_cache_lock);
 
-      auto func_ptr_ref = func_ptr_map.find(func_name);
-      if (func_ptr_ref != func_ptr_map.end()) {
+      auto func_ptr_ref = internal_func_ptr_map.find(func_name);
+      if (func_ptr_ref != internal_func_ptr_map.end()) {
         return func_ptr_ref->second;
       }
     }
@@ -747,7 +753,7 @@ public:
       func_ptr = this->impl_lookup_symbol(func_name);
     }
     RLBOX_ACQUIRE_UNIQUE_GUARD(lock, func_ptr_cache_lock);
-    func_ptr_map[func_name] = func_ptr;
+    internal_func_ptr_map[func_name] = func_ptr;
     return func_ptr;
   }
 
